@@ -157,6 +157,8 @@ def native_search(kind, a, b, int_cells=False, kmax=3):
     signed = [-2, -1, 0, 1, 3] if int_cells else [-2.0, -0.5, 0.0, 0.5, 1.0, 3.0]
     pos = [1, 2, 5] if int_cells else [0.25, 0.5, 1.0, 2.0]
     grid = pos if kind == "ratio" else signed
+    if kind == "ratio" and a == "between_groups":
+        grid = [0] + pos          # zero denominators: min / max is the floating-point quotient (0/0 = NaN)
     wrap = (lambda x: np.int64(x)) if int_cells else float
     grids = [grid] if int_cells else [grid, [g * 1e-9 for g in grid]]          # also values of tiny magnitude: the aggregates are exact functions, not "close to" ones
     for grid, k in [(g_, k_) for g_ in grids for k_ in range(1, kmax + 1)]:
@@ -177,11 +179,14 @@ def native_search(kind, a, b, int_cells=False, kmax=3):
                         want = max(vals) - min(vals) if a == "between_groups" else max(abs(v - ov) for v in vals)
                     else:
                         got = dr.ratio(None, method=a, errors=b)["m"]
-                        want = min(vals) / max(vals) if a == "between_groups" else (0.0 if ov == 0 else min(min(v / ov, ov / v) for v in vals))
+                        want = (math.nan if max(vals) == 0 else min(vals) / max(vals)) if a == "between_groups" else (0.0 if ov == 0 else min(min(v / ov, ov / v) for v in vals))
                 except Exception as ex:
                     got, want = f"{type(ex).__name__}: {ex}"[:120], "a number"
-                ok = isinstance(got, (int, float, np.number)) and not (isinstance(got, float) and math.isnan(got)) \
-                    and abs(float(got) - float(want)) <= 1e-9 * max(abs(float(want)), max(abs(float(v)) for v in vals))
+                if isinstance(want, float) and math.isnan(want):
+                    ok = isinstance(got, (float, np.floating)) and math.isnan(got)
+                else:
+                    ok = isinstance(got, (int, float, np.number)) and not (isinstance(got, float) and math.isnan(got)) \
+                        and abs(float(got) - float(want)) <= 1e-9 * max(abs(float(want)), max(abs(float(v)) for v in vals))
                 if not ok:
                     return {"by_group": [float(v) for v in vals], "overall": float(ov), "integer_cells": int_cells, "call": [kind, a, b], "got": repr(got), "expected": repr(want)}
     return None
